@@ -2,6 +2,7 @@ import PyPhysim.Model.Proto
 import PyPhysim.Model.C19
 import PyPhysim.Model.C19Cluster
 import PyPhysim.Model.C19State
+import PyPhysim.Model.C19Users
 open PyPhysim.Proto PyPhysim.C19
 
 instance : NatCast Float := ⟨Float.ofNat⟩
@@ -137,8 +138,43 @@ def queryState (st : CellState Float) : List String → String
       | none => "error:RuntimeError"
   | q => queryShape (shapeOfState st) q
 
+/-- `s:<x>` (one value for all cells) or `l:<x>,<x>,…` (per cell; `l:` alone is the empty list) -/
+def parseArg? {β : Type} (f : String → Option β) (s : String) : Option (Arg β) :=
+  if s.startsWith "s:" then (f (s.drop 2).toString).map .one
+  else if s.startsWith "l:" then ((fields (s.drop 2).toString ",").mapM f).map .many
+  else none
+
+/-- the cells of a cluster as the placement model sees them -/
+def clusterGeoms (ctype : String) (n : Nat) (r rt : Float) (pos : Pt Float) : Option (List (CellGeom Float)) :=
+  let u := Circ.cisDeg rt
+  match ctype with
+  | "square" => match squareRaw r n with
+      | .ok raw => some ((clusterCentres raw u pos).map (fun c =>
+          { pos := c, radius := Float.sqrt 2.0 * r / 2.0, inside := rectInside (squareCell r c) u }))
+      | .error _ => none
+  | "3sec" => some ((clusterCentres (hexRaw r n) u pos).map (fun c =>
+      { pos := c, radius := r, inside := pnpoly (place c u (sec3Verts r)) }))
+  | "simple" => some ((clusterCentres (hexRaw r n) u pos).map (fun c =>
+      { pos := c, radius := r, inside := pnpoly (place c u (hexVerts r)) }))
+  | _ => none
+
 def handleOther (toks : List String) : String :=
   match toks with
+  | ["clusterusers", ctype, n, r, rt, px, py, ids, nums, ratios, us] =>
+      match n.toNat?, parseFloat? r, parseFloat? rt, parseFloat? px, parseFloat? py,
+            (if ids == "-" then some none else (parseNatList? ids).map some),
+            parseArg? String.toNat? nums, parseArg? parseFloat? ratios, parsePts? us with
+      | some n, some r, some rt, some px, some py, some ids, some nums, some ratios, some us =>
+          match clusterGeoms ctype n r rt (px, py) with
+          | none => "bad-op"
+          | some cells =>
+            match clusterAddRandomUsers cells ids nums (.one none) ratios us with
+            | .error e => "error:" ++ toString e
+            | .ok none => "none"
+            | .ok (some (pl, _)) =>
+                if pl.isEmpty then "-" else
+                showList (fun (u : Placed Float) => toString u.cell ++ ":" ++ showPt u.pos) pl ";"
+      | _, _, _, _, _, _, _, _, _ => "bad-op"
   | ["cluster", "hex", n, r, rt, px, py] =>
       match n.toNat?, parseFloat? r, parseFloat? rt, parseFloat? px, parseFloat? py with
       | some n, some r, some rt, some px, some py =>
